@@ -170,7 +170,8 @@ def section_end_only_at_bookend(ctx, a, rule):
     section — Ok(None) — only on the is_bookend() edge of a header they have just read from the reader: an input's
     section must not be cut short by anything else (a footer count, a flag), or its remaining records are lost."""
     n = 0
-    for cb in ctx.F.children(a.body):
+    units = list(ctx.F.children(a.body)) + [ctx.F.inlined_bodies[q] for q in dict.fromkeys(a.body.get('inlined', [])) if q in getattr(ctx.F, 'inlined_bodies', {})]
+    for cb in units:
         if 'core::option::Option<' not in cb['locals'][0]['ty'] or 'core::result::Result<' not in cb['locals'][0]['ty']:
             continue
         ac = an(cb)
@@ -188,7 +189,7 @@ def section_end_only_at_bookend(ctx, a, rule):
                     ctx.check(bool(te) and ac.cfg.must_pass(site, via_edges=te), rule, cb['qpath'], 'end of section', ac.loc(site, ssi if sb is not None else si),
                               'the loader reports the end of the section only on the is_bookend() edge of a header it has read',
                               'a record loader of set_operation can report the end of a section without having reached the bookend: the remaining records of that input are silently dropped')
-    ctx.floor(rule, 'record loaders (load_next closures) in set_operation', n, 2)
+    ctx.floor(rule, 'record loaders (load_next closures or helper functions) in set_operation', n, 2)
 
 
 def _innermost_loop(a, b):
